@@ -521,7 +521,8 @@ pub fn with_values(ks: &[Vec<u8>], vals: &[u64]) -> Vec<(Vec<u8>, u64)> {
 
 /// read the words of a corpus file shipped in /repo/data
 pub fn corpus(name: &str, limit: usize) -> Vec<Vec<u8>> {
-    let txt = std::fs::read(format!("/repo/data/{}", name)).unwrap_or_default();
+    let repo = std::env::var("VERIF_REPO").unwrap_or_else(|_| "/repo".to_string());
+    let txt = std::fs::read(format!("{}/data/{}", repo, name)).unwrap_or_default();
     let ks: Vec<Vec<u8>> = txt.split(|&b| b == b'\n').filter(|l| !l.is_empty()).take(limit).map(|l| l.to_vec()).collect();
     sort_dedup(ks)
 }
